@@ -300,6 +300,17 @@ theorem c07_trace_no_txn_data_outside_txn (a b : List Ev) (i p r : Nat) (s : TSt
               | none => rfl
               | some c => rw [hfa] at hf; simp at hf
 
+/-- **the transactional flag is set in every batch the producer writes**: no accepted history
+    contains the append of a batch of the transactional producer without the flag (such a batch —
+    e.g. one built by `create_batch()` outside a transaction — would be readable at once and survive
+    `abort_transaction()`) -/
+theorem c07_trace_txn_flag_in_every_batch (a b : List Ev) (i p r : Nat) (s : TSt) :
+    trun {} (a ++ Ev.appendPlain i p r :: b) ≠ .ok s := by
+  intro h
+  obtain ⟨s1, s2, _, h2, _⟩ := trun_split a {} s _ b h
+  simp only [tstep] at h2
+  cases h2
+
 /-- **EndTxn only after every batch was acknowledged, with the result the application asked for** -/
 theorem c07_trace_end_after_acks (a b : List Ev) (i : Nat) (c : Bool) (s : TSt)
     (h : trun {} (a ++ Ev.endReq i c :: b) = .ok s) :
